@@ -178,15 +178,20 @@ func runR053(c *core.Ctx) {
 		})
 		c.Check(found && guarded, rel, "(*pathNode).receive", br.key+" stored exactly on the "+br.method+" branch", recv.Pos(), "", fmt.Sprintf("stored=%v, on the %s branch=%v", found, br.method, guarded))
 	}
-	// 4. PostRequest loop in ServeHTTP
-	spar := core.Parents(serve.Body)
+	// 4. PostRequest loop in ServeHTTP (or in a helper it calls: the inlined view)
+	sv := core.NewVirtual(c.M, serve)
 	var postCall *ast.CallExpr
-	ast.Inspect(serve.Body, func(n ast.Node) bool {
-		if call, ok := n.(*ast.CallExpr); ok && isPost(call) {
-			postCall = call
+	var postFrame *core.VFrame
+	sv.Inspect(func(fr *core.VFrame, n ast.Node) bool {
+		if call, ok := n.(*ast.CallExpr); ok && isPost(call) && postCall == nil {
+			postCall, postFrame = call, fr
 		}
 		return true
 	})
+	spar := core.Parents(serve.Body)
+	if postFrame != nil && postFrame.Body != serve.Body {
+		spar = core.Parents(postFrame.Body)
+	}
 	if postCall == nil {
 		c.Unknown(rel, "(*rootNode).ServeHTTP", "PostRequest call", serve.Pos(), "not found")
 	} else {
@@ -228,6 +233,14 @@ func runR053(c *core.Ctx) {
 					}, nil)
 				}
 			}
+		}
+		// when the loop lives in a helper, the guard is on the call(s) that lead to it
+		for fr := postFrame; !guarded && fr != nil && fr.Call != nil && fr.Parent != nil; fr = fr.Parent {
+			ppar := core.Parents(fr.Parent.Body)
+			guarded = core.GuardedByFact(inf, ppar, core.EnclosingStmt(ppar, fr.Call), func(f core.Fact) bool {
+				x, nonNil, ok := core.NilTest(inf, f)
+				return ok && !nonNil && core.IsErrorType(inf.Types[x].Type)
+			}, nil)
 		}
 		c.Check(guarded, rel, "(*rootNode).ServeHTTP", "PostRequest runs only after the method succeeded (err == nil)", postCall.Pos(), "", "PostRequest is not guarded by err == nil")
 	}
@@ -400,6 +413,14 @@ func runR054(c *core.Ctx) {
 					has = true
 				}
 				if core.IsFunc(f, "strings", "TrimPrefix") || core.IsFunc(f, "strings", "CutPrefix") {
+					trim = true
+				}
+			}
+		}
+		// path[len(r.prefix):] after the HasPrefix test strips the same bytes
+		if se, ok := n.(*ast.SliceExpr); ok && se.Low != nil && se.High == nil {
+			if call, ok := core.Unparen(se.Low).(*ast.CallExpr); ok && len(call.Args) == 1 {
+				if id, ok := core.Unparen(call.Fun).(*ast.Ident); ok && id.Name == "len" && core.ObjOf(inf, call.Args[0]) == prefixField {
 					trim = true
 				}
 			}
